@@ -238,6 +238,14 @@ def outcome_key_parity(ctx) -> int:
         if isinstance(g.iter, ast.Call) and dotted(g.iter.func) == "zip" and len(g.iter.args) == 2 and isinstance(g.target, ast.Tuple) and [norm(x) for x in g.target.elts] == [norm(rets[0].key), norm(rets[0].value)]:
             keys_expr, probs_expr = g.iter.args
             ok_zip = True
+        elif isinstance(g.iter, ast.Call) and dotted(g.iter.func) == "enumerate" and len(g.iter.args) == 1 and not g.iter.keywords and not g.ifs and isinstance(g.target, ast.Tuple) and len(g.target.elts) == 2 and norm(g.target.elts[1]) == norm(rets[0].value) and isinstance(g.target.elts[0], ast.Name):
+            # {key(i): p for i, p in enumerate(probabilities)}: the keys are key(i) for i = 0, 1, ... in the order of the probabilities
+            i_name = g.target.elts[0].id
+            probs_expr = g.iter.args[0]
+            keys_expr = ast.ListComp(elt=rets[0].key, generators=[ast.comprehension(target=ast.Name(id=i_name, ctx=ast.Store()), iter=ast.parse("range(len(self))", mode="eval").body, ifs=[], is_async=0)])
+            ast.copy_location(keys_expr, rets[0])
+            ast.fix_missing_locations(keys_expr)
+            ok_zip = True
     if not ok_zip:
         raise Und("get_outcome_probs does not return dict(zip(keys, probabilities))")
 
@@ -273,6 +281,14 @@ def outcome_key_parity(ctx) -> int:
             continue
         break
     # base must be the zero-padded MSB-first binary text of the index
+    import copy as _copy
+
+    class _Loc(ast.NodeTransformer):  # a local that only holds `self.n_qubits`
+        def visit_Name(self, n):
+            sd = d.single_def(n.id) if isinstance(n.ctx, ast.Load) else None
+            return _copy.deepcopy(sd) if isinstance(sd, ast.AST) and norm(sd) == "self.n_qubits" else n
+
+    el = _Loc().visit(_copy.deepcopy(el))
     base_ok = False
     if isinstance(el, ast.Call) and dotted(el.func) == "format" and len(el.args) == 2 and norm(el.args[0]) == idx:
         spec = el.args[1]
